@@ -315,7 +315,7 @@ H("C01", "html/tree", "VxH_C01_root", reach=["parsed"], bounds="documents starti
 H("C01", "html/tree", "VxH_C08_var", reach=["computed"], divergence=True, bounds="var() graphs, see C08", quick={"maxdepth": 250})
 H("C01", "html/document", "VxH_C14_outline", reach=["built"], bounds="bookmark outline, see C14")
 H("C01", "css/counters", "VxH_C19_cycles", reach=["terminated"], divergence=True, bounds="counter style extends / fallback graphs, see C19")
-H("C17", "css/validation", "VxH_C17_validate", mode="real", reach=["angle", "translate-1", "translate-2", "scale-1", "scale-2", "matrix"], bounds="every CSS transform function with symbolic arguments in [-1000,1000]; angles in deg/grad/rad/turn; translations in px or %")
+H("C17", "css/validation", "VxH_C17_validate", mode="real", reach=["angle", "translate-1", "translate-2", "scale-1", "scale-2", "matrix", "skew"], bounds="every CSS transform function with symbolic arguments in [-1000,1000]; angles in deg/grad/rad/turn; translations in px or %")
 H("C07", "css/validation", "VxH_C07_validators", reach=["validated"], bounds="~125 property names x value of 0..1 (thorough 2) tokens over 12 token kinds with small contents", quick={"shards": 6}, thorough={"shards": 12, "time": "2400s", "maxpaths": 8000000})
 H("C07", "css/validation", "VxH_C07_descriptors", reach=["counter-style", "font-face"], bounds="@font-face (9) and @counter-style (11) descriptor names x value of 0..2 tokens over 12 kinds", quick={"shards": 6})
 H("C19", "html/boxes", "VxH_C19_scope", reach=["built"], bounds="body > x-a > x-a1, x-b, x-c; each element one of {nothing, counter-reset c 5, counter-set c 7, counter-increment c 2}; every element prints counters(c, '.')", quick={"maxsteps": 80000000, "shards": 6})
